@@ -99,6 +99,26 @@ CHECKS = {
     note="Only the cross-process/hash-seed agreement clause depends on something the simulator controls; totality, purity, ranges and "
          "runnability are sampled over the generated inputs and claimed as such.",
     technique="deterministic simulation (process/hash-seed axis): differential validation across API variants and CLI interpreters + execution of accepted configs"),
+ "C10": dict(level="exploration", ref="4/C10",
+    text="A generated turn function honouring the documented dry-run contract runs through the real batch driver, LogMux, LogStager, apply_changes "
+         "and snapshot writer over a recording store, for generated batches (1-6 agents, arbitrary graph overlap, record sizes to 40 KiB) under "
+         "three staging byte limits from 1 byte to 32 MiB and worker limits 2-8, and is compared with the sequential loop over the picked agents "
+         "(results, per-file log lines, store hand-offs, version, snapshot files, greedy disjoint selection). The real pipeline through the "
+         "driver is a recorded finding.",
+    note="The driver's compute loop is sequential, so the varied schedule is where back-pressure drains fall.",
+    technique="deterministic simulation: back-pressure schedules via the staging seam, differential vs sequential loop"),
+ "C11": dict(level="exploration", ref="4/C11",
+    text="Multi-agent histories over one shared memory index with stage and turn-level caches on, memory additions, relabels and config changes; "
+         "a monitor on every T2Result (incl. RAG refinement, cached or fresh) checks k/distinctness/owner scope/threshold/recency window/combined-"
+         "score order, the permutation law of the rerank layers and the residual-nudge rules.",
+    note="Scope isolation through shared caches is the schedule-dependent clause; ranking and tier laws are sampled over generated memories.",
+    technique="deterministic simulation: invariant monitors over interleaved multi-agent histories with shared caches"),
+ "C13": dict(level="exploration", ref="4/C13",
+    text="Whole-engine turns are monitored for op caps (incl. slice cap 0), Speak-first intent vs thresholds, RequestRetrieve only below tau_low, "
+         "at most one refinement, token budgets and planner purity; the real LLM planner/speaker path is driven against an in-process fake HTTP "
+         "peer answering with valid, fenced, prose-wrapped, torn, duplicated, oversized, wrongly typed or non-UTF-8 bodies, errors, timeouts and stalls.",
+    note="Acceptance is checked one-directionally against an independent strict reading; planner purity/threshold clauses are sampled.",
+    technique="deterministic simulation: in-process fake peer with scripted faults behind urllib + invariant monitors"),
 }
 
 NA = {
